@@ -1,0 +1,17 @@
+//go:build verif
+
+// Contracts for package model, read by /verif/govc. Comment-only file.
+package model
+
+// Clone: a deep copy. The result is a freshly allocated object of the same
+// dynamic type. (The body goes through CloneModel of generated code, verified
+// under C20, or through encoding/json: trusted.)
+//@ func Clone
+//@ trusted "deep copy through CloneableModel.CloneModel (generated code, see C20) or a JSON round trip"
+//@ modifies nothing
+//@ ensures a != nil ==> (result != nil && fresh(ptrof(result)) && sametype(result, a))
+//@ ensures a == nil ==> result == nil
+
+//@ func (DatabaseModel).NewModelInfo
+//@ modifies nothing
+//@ ensures_ok result0 != nil && fresh(result0) && result0.Obj == obj
